@@ -182,7 +182,7 @@ func (t *tracer) probe(id int, p parsley.Parser) parser.Func {
 		}
 		top := len(t.stack) == 0
 		t.stack = append(t.stack, pframe{n: id, pos: int(pos)})
-		if !t.quiet && (top || !t.topOnly) {
+		if !t.quiet && (top || !t.topOnly || (bo > 0 && t.remain != nil && act > t.remain(int(pos))+2)) { // (topOnly still records a call that breaks the re-entry bound)
 			e := J{"ev": "call", "n": id, "pos": int(pos), "lrc": t.lrcJ(l), "calls": ctx.CallCount(), "cerr": errJ(ctx.Error()), "bo": bo, "act": act}
 			t.ev = append(t.ev, e)
 		}
